@@ -402,6 +402,8 @@ static void c11(const Trace& t, const Analysis& A, Verdict& V) {
 		}
 		if ((w.processing || w.activation) && !f.bare && w.lostRequest.valid)
 			V.add(11, w.e - 1, F("the most recent request that no guard cancelled was %s, but it was never processed: previousTransition()=%s describes an earlier request", trStr(w.lostRequest).c_str(), trStr(e.prev).c_str()));
+		if ((w.processing || w.activation) && e.prev.valid && e.prev.hasPay && !e.prev.exact)
+			V.add(11, w.e - 1, F("previousTransition() carries a payload whose bytes are not those of any payload that was requested (first byte %u, the rest differs from the value that was attached)", e.prev.seed));
 		if (w.processing && !f.bare) {
 			if (w.survivor >= 0) {
 				const TrV& s = w.rounds[w.survivor].pend;
